@@ -207,6 +207,67 @@ fn check_cfg(ctx: &Ctx, cfg: &Cfg, dp: usize, stretch_len: usize) -> JobOut {
     out
 }
 
+/// Level sweep: "every flat price level" - all two-decimal prices 0.01..=20.00 plus 2000
+/// log-uniform levels in [1e-3, 1e6] (LCG, seeded), after an empty and a short active prefix.
+/// Catches neutral values that are exact only for "nice" levels (e.g. 100*x/x - 100).
+fn level_sweep(ctx: &Ctx, cfg: &Cfg) -> JobOut {
+    let mut out = JobOut::default();
+    let mut levels: Vec<f64> = (1..=2000).map(|k| k as f64 / 100.0).collect();
+    let mut lcg = crate::alpha::Lcg::new(ctx.seed ^ 0xC08);
+    for _ in 0..2000 {
+        levels.push(10f64.powf(-3.0 + 9.0 * lcg.unit()));
+    }
+    let prefixes: [&[f64]; 2] = [&[], &[2.0, 7.7]];
+    for (st, w) in plan(cfg) {
+        if st == Stretch::ZeroVolume {
+            continue;
+        }
+        let len = w + 3;
+        for pre in prefixes {
+            for &level in &levels {
+                let mut ops: Vec<Op> = pre.iter().enumerate().map(|(i, x)| prefix_op(cfg, *x, st, i)).collect();
+                let plen = ops.len();
+                for j in 0..len {
+                    ops.push(stretch_op(st, level, j));
+                }
+                out.stats.traces += 1;
+                out.stats.states += 1;
+                out.stats.transitions += ops.len() as u64;
+                let r = std::panic::catch_unwind(std::panic::AssertUnwindSafe(|| {
+                    let mut s = make(cfg);
+                    ops.iter().map(|op| s.apply(op)).collect::<Vec<Out>>()
+                }));
+                let res = match r {
+                    Ok(x) => x,
+                    Err(_) => {
+                        out.fail(Violation::new(PROP, cfg, &ops, "panic").obs("panic".into()).exp("a finite value".into()));
+                        return out;
+                    }
+                };
+                let mut m = 0.0f64;
+                for (i, op) in ops.iter().enumerate() {
+                    m = m.max(op.maxmag());
+                    if i < plen {
+                        continue;
+                    }
+                    let j = i - plen;
+                    let t = i + 1;
+                    if j + 1 < w.min(t) {
+                        continue;
+                    }
+                    out.stats.evaluations += 1;
+                    out.stats.nontrivial += 1;
+                    if let Err((class, exp)) = check_step(cfg, st, t, m, &res[i]) {
+                        out.fail(Violation::new(PROP, cfg, &ops[..=i], &class).obs(out2s(&res[i])).exp(exp).det(format!("level sweep: {:?} stretch at level {} : step {} of the stretch after a {}-input prefix", st, level, j + 1, plen)));
+                        return out;
+                    }
+                }
+            }
+        }
+    }
+    out
+}
+
 pub fn run(ctx: &Ctx) -> CheckResult {
     let mut res = CheckResult::new(PROP, "model_checking");
     let th = ctx.tier_thorough;
@@ -242,10 +303,16 @@ pub fn run(ctx: &Ctx) -> CheckResult {
     jobs.sort_by_key(|j| std::cmp::Reverse(j.2 * 5usize.pow(j.1 as u32)));
     let outs = par_run(ctx, &jobs, |_, (cfg, dp, len)| check_cfg(ctx, cfg, *dp, *len));
     res.absorb(merge_jobs(outs));
+    if !res.out.failed() {
+        let sweep: Vec<Cfg> = jobs.iter().map(|j| j.0).filter(|c| c.max_period() <= 3).collect();
+        let outs = par_run(ctx, &sweep, |_, cfg| level_sweep(ctx, cfg));
+        res.extra.insert("level_sweep_configurations".into(), json!(sweep.len()));
+        res.absorb(merge_jobs(outs));
+    }
     res.extra.insert("configurations".into(), json!(jobs.len()));
     res.rule = "case = (configuration, active prefix, stretch kind, flat level, step of the stretch); the real output at every step whose reference window is degenerate (min(t,w) trailing inputs flat / zero-flow) must be finite, inside the documented range, and equal the documented neutral value where one is defined; non-trivial = non-empty active prefix".into();
     res.bounds = format!(
-        "all 22 indicators, periods 1..8; every active prefix over {{2, 0.3, 1e6, 7.7, 1e9}} up to depth {} (exponential-memory kinds at periods 1..3: {}), levels {{1, 0.1, 0.7, 3.3, 1e6}}, stretch kinds scalar / one-price bar / same bar (CCI, MFI) / zero volume (MFI, OBV), every stretch length 1..{} ({} for exponential-memory kinds{})",
+        "all 22 indicators, periods 1..8; every active prefix over {{2, 0.3, 1e6, 7.7, 1e9}} up to depth {} (exponential-memory kinds at periods 1..3: {}), levels {{1, 0.1, 0.7, 3.3, 1e6}}, stretch kinds scalar / one-price bar / same bar (CCI, MFI) / zero volume (MFI, OBV), every stretch length 1..{} ({} for exponential-memory kinds{}); level sweep for periods 1..3: all two-decimal prices 0.01..20.00 and 2000 log-uniform levels in [1e-3, 1e6]",
         4,
         3,
         if th { 600 } else { 64 },
